@@ -384,6 +384,8 @@ fn agm_elliptic_perimeter(accuracy: f64, radii: Vec2) -> f64 {
     let mut mul = 0.5;
 
     loop {
+        #[cfg(kurbo_verif)]
+        crate::verif_hooks::tick();
         let c2 = c.powi(2);
         // term = 2^(n-1) c_n^2
         let term = mul * c2;
